@@ -11,11 +11,17 @@ git checkout -q -- . ; git apply SEED/patch.diff || { echo "patch does not apply
 mv "$demo" /tmp/demo_aside.go
 go build ./... || { echo "BUILD FAILS"; exit 1; }
 go test -count=1 ./pkg/... > /tmp/confirm_suite.log 2>&1; suite=$?
+# a demo inside a plugin module (own go.mod): that module's build and tests belong to the suite, tests run from there
+runtest() { if [ -f "$tdir/go.mod" ]; then (cd "$tdir" && go test -count=1 . "$@"); else go test -count=1 ./$tdir/ "$@"; fi; }
+if [ -f "$tdir/go.mod" ]; then
+  (cd "$tdir" && go build ./... && go test -count=1 ./...) >> /tmp/confirm_suite.log 2>&1 || suite=1
+fi
 mv /tmp/demo_aside.go "$demo"
-go test -count=1 ./$tdir/ $rx > /tmp/confirm_with.log 2>&1; with=$?
-git stash -q -- $(git diff --name-only)
-go test -count=1 ./$tdir/ $rx > /tmp/confirm_without.log 2>&1; without=$?
-git stash pop -q
+runtest $rx > /tmp/confirm_with.log 2>&1; with=$?
+# (no git stash here: the stash is shared by all worktrees of /repo, sub-agents may be using it)
+git apply -R SEED/patch.diff
+runtest $rx > /tmp/confirm_without.log 2>&1; without=$?
+git apply SEED/patch.diff
 echo "suite_with_change=$suite demo_with_change=$with demo_without_change=$without"
 if [ $suite -eq 0 ] && [ $with -ne 0 ] && [ $without -eq 0 ]; then
   d=/verif/seeded/$name; mkdir -p $d
